@@ -378,7 +378,12 @@ class Context(object):
             'notes': self.notes,
         }
         if self.exhaustive is not None:
-            cov['exhaustive'] = self.exhaustive
+            if isinstance(self.exhaustive, bool):
+                cov['exhaustive'] = self.exhaustive
+            else:
+                # a sub-space that was enumerated completely (described), inside a run that is not exhaustive as a whole
+                cov['exhaustive'] = False
+                cov['exhaustive_part'] = self.exhaustive
         ev = {
             'property_id': self.prop,
             'tier': self.tier,
